@@ -1215,6 +1215,21 @@ class Definition(Macro):
                     if t == a:
                         break
                     param.append(t)
+                # A delimited argument that consists of a single brace
+                # group loses its outermost braces
+                if len(param) > 1 and \
+                   param[0].catcode == Token.CC_BGROUP and \
+                   param[-1].catcode == Token.CC_EGROUP:
+                    level = 0
+                    for i, t in enumerate(param):
+                        if t.catcode == Token.CC_BGROUP:
+                            level += 1
+                        elif t.catcode == Token.CC_EGROUP:
+                            level -= 1
+                            if level == 0:
+                                break
+                    if i == len(param) - 1:
+                        param = param[1:-1]
                 inparam = False
                 params.append(param)
 
